@@ -241,7 +241,9 @@ def markDirty (s : State) (g : Id) : State :=
   | some d => { s with dirty := upd s.dirty d true }
   | none => s
 
-/-- `_update_psd_record` -/
+/-- `_update_psd_record`. Since 19d58e7 it also recomputes the clipping relation of the document
+(`_compute_clipping_layers`): that relation is not part of this model (C15), and the traversal it
+makes is covered by the standing assumption that the recursion limit is not hit. -/
 def updateRecord (cfg : Cfg) (s : State) (g : Id) : State :=
   let s1 := markDirty s g
   if cfg.invalidateOnEdit then invUp cfg s1 g else s1
@@ -440,19 +442,18 @@ def opPop (cfg : Cfg) (s : State) (g : Id) (i : Int) : State × Out :=
 def opClear (cfg : Cfg) (s : State) (g : Id) : State × Out :=
   finishRemove cfg (setChildren s g []) g .none
 
-/-- `__delitem__`: the dirty flag (and the invalidation) come FIRST, then the list operation -/
+/-- `__delitem__`: the list operation, then the bookkeeping (the snapshot set the dirty flag
+before the list could raise IndexError; the order was changed by 19d58e7, the C15 repair) -/
 def opDelitem (cfg : Cfg) (s : State) (g : Id) (i : Int) : State × Out :=
-  let s1 := updateRecord cfg s g
-  let l := s1.children g
+  let l := s.children g
   match normIdx l.length i with
-  | none => (s1, .error .indexError)
-  | some j => (setChildren s1 g (l.eraseIdx j), .none)
+  | none => (s, .error .indexError)
+  | some j => finishRemove cfg (setChildren s g (l.eraseIdx j)) g .none
 
 def opDelslice (cfg : Cfg) (s : State) (g : Id) (a b : Option Int) : State × Out :=
-  let s1 := updateRecord cfg s g
-  let l := s1.children g
+  let l := s.children g
   let (lo, hi) := sliceBounds l.length a b
-  (setChildren s1 g (sliceAssign l lo hi []), .none)
+  finishRemove cfg (setChildren s g (sliceAssign l lo hi [])) g .none
 
 /-! ### The operations of `Layer` -/
 
